@@ -757,8 +757,124 @@ pub(crate) fn m_prefix_width() {
     }
 }
 
+/// An ordered list through the public API: numbers are consecutive from `start`, markers are padded
+/// to the widest marker of the list, content starts right after the marker column.
+pub(crate) fn m_ol_numbering() {
+    let start: i64 = kani::any();
+    let n: usize = kani::any();
+    kani::assume(n >= 1 && n <= 64);
+    let mut html = format!("<ol start=\"{}\">", start);
+    for _ in 0..n {
+        html.push_str("<li>x</li>");
+    }
+    html.push_str("</ol>");
+    let out = crate::config::plain().string_from_read(html.as_bytes(), 60).expect("renders at width 60");
+    let last = start.saturating_add(n as i64 - 1);
+    let wmax = std::cmp::max(format!("{}. ", start).len(), format!("{}. ", last).len());
+    let lines: Vec<&str> = out.lines().collect();
+    assert!(lines.len() == n, "one line per item");
+    for (k, line) in lines.iter().enumerate() {
+        let num = start.saturating_add(k as i64);
+        let want = format!("{: <w$}x", format!("{}. ", num), w = wmax);
+        assert!(*line == want, "item {}: got {:?}, want {:?}", k, line, want);
+    }
+}
+
+// ---------------------------------------------------------------------
+// Native replay targets driven through the public API (for mirsym specs
+// whose findings are structural: call order, argument plumbing, marker position).
+// ---------------------------------------------------------------------
+
+fn rich_tokens(html: &[u8], width: usize, css: bool) -> Vec<(String, Vec<RichAnnotation>)> {
+    let cfg = crate::config::rich();
+    #[cfg(feature = "css")]
+    let cfg = if css { cfg.use_doc_css() } else { cfg };
+    let lines = cfg.lines_from_read(html, width).expect("renders");
+    let mut out = Vec::new();
+    for l in lines {
+        for e in l.iter() {
+            match e {
+                render::TaggedLineElement::Str(ts) => {
+                    for w in ts.s.split_whitespace() {
+                        out.push((w.to_string(), ts.tag.clone()));
+                    }
+                }
+                render::TaggedLineElement::FragmentStart(n) => out.push((format!("#{}", n), Vec::new())),
+            }
+        }
+    }
+    out
+}
+
+/// Colours of table cells and of the enclosing element do not leak into each other.
+pub(crate) fn m_cell_unwind() {
+    let _which: u8 = kani::any();
+    let html = b"<div style=\"color:#ff0000\">before <table><tr><td style=\"color:#0000ff\">cella</td><td>cellb</td></tr></table>after</div><p>outside</p>";
+    let toks = rich_tokens(html, 60, true);
+    let red = RichAnnotation::Colour(Colour { r: 255, g: 0, b: 0 });
+    let blue = RichAnnotation::Colour(Colour { r: 0, g: 0, b: 255 });
+    let find = |w: &str| toks.iter().find(|(t, _)| t.contains(w)).map(|(_, a)| a.clone()).expect("token present");
+    assert!(find("before") == vec![red.clone()]);
+    assert!(find("cella") == vec![red.clone(), blue.clone()], "cell colour nests inside the enclosing colour");
+    assert!(find("cellb") == vec![red.clone()], "the next cell keeps the enclosing colour only: {:?}", find("cellb"));
+    assert!(find("after") == vec![red.clone()], "text after the table keeps the enclosing colour: {:?}", find("after"));
+    assert!(find("outside").is_empty());
+    // colour outside background, both popped at the end of the element
+    let html2 = b"<p><span style=\"color:#ff0000;background-color:#0000ff\">both</span> plain</p>";
+    let t2 = rich_tokens(html2, 60, true);
+    let both = t2.iter().find(|(t, _)| t.contains("both")).unwrap().1.clone();
+    assert!(both == vec![red.clone(), RichAnnotation::BgColour(Colour { r: 0, g: 0, b: 255 })], "colour outermost, background inside: {:?}", both);
+    assert!(t2.iter().find(|(t, _)| t.contains("plain")).unwrap().1.is_empty(), "no annotation leaks past its element");
+}
+
+/// All routes render at the caller's width, also when a maximum wrap width is configured.
+pub(crate) fn m_routes_width() {
+    let _which: u8 = kani::any();
+    let html: &[u8] = b"<table><tr><td>one two three four five six</td><td>seven eight nine ten eleven</td></tr></table><ul><li>alpha beta gamma delta epsilon zeta eta theta</li></ul><blockquote>quoted words that are long enough to wrap somewhere</blockquote>";
+    for &w in &[60usize, 24, 60, 10, 100] {
+        let one = crate::config::plain().max_wrap_width(20).string_from_read(html, w);
+        let cfg = crate::config::plain().max_wrap_width(20);
+        let dom = cfg.parse_html(html).unwrap();
+        let tree = cfg.dom_to_render_tree(&dom).unwrap();
+        let staged = cfg.render_to_string(tree.clone(), w);
+        assert!(one == staged, "staged string route differs at width {}", w);
+        let lines = cfg.render_to_lines(tree, w).map(|ls| {
+            let mut s = String::new();
+            for l in ls {
+                for ts in l.tagged_strings() {
+                    s.push_str(&ts.s);
+                }
+                s.push('\n');
+            }
+            s
+        });
+        assert!(one == lines, "staged lines route differs at width {}", w);
+    }
+}
+
+/// Fragment markers of container elements come before the element's content.
+pub(crate) fn m_insert_child() {
+    let _which: u8 = kani::any();
+    let cases: [(&[u8], &str, &str); 6] = [
+        (b"<table><tr id=\"k\"><td>first second</td><td>other</td></tr></table>", "#k", "first"),
+        (b"<table id=\"k\"><tr><td>first</td></tr></table>", "#k", "first"),
+        (b"<div id=\"k\"><p>first</p><p>second</p></div>", "#k", "first"),
+        (b"<ul><li id=\"k\">first second</li></ul>", "#k", "first"),
+        (b"<blockquote id=\"k\">first second</blockquote>", "#k", "first"),
+        (b"<p>zero <em id=\"k\">first</em> last</p>", "#k", "first"),
+    ];
+    for (html, frag, word) in cases.iter() {
+        let toks = rich_tokens(html, 40, false);
+        let names: Vec<&str> = toks.iter().map(|(t, _)| t.as_str()).collect();
+        let fi = names.iter().position(|t| t == frag).unwrap_or_else(|| panic!("marker {} missing in {:?}", frag, names));
+        let wi = names.iter().position(|t| t.contains(word)).expect("word present");
+        assert!(fi < wi, "marker {} comes after the element's first word: {:?}", frag, names);
+        assert!(names.iter().filter(|t| *t == frag).count() == 1);
+    }
+}
+
 crate::verif_common::registry! {
-    m_prefix_width, m_into_cells, m_table_col_width, m_table_alloc,
+    m_cell_unwind, m_routes_width, m_insert_child, m_ol_numbering, m_prefix_width, m_into_cells, m_table_col_width, m_table_alloc,
     r1_cascade_pairs, r1_cascade_triples, r2_specificity_order, r2_specificity_add,
     r3_ol_prefix_total, r4_ol_prefix_is_max,
     r9_tree_map_reduce_order, r12_config_plumbing, r12_width_zero,
